@@ -106,10 +106,11 @@ class Grammar:
                 self.dups.append((fn.name, self.fns[fn.name].loc(), fn.loc()))
             self.fns[fn.name] = fn
         for fn in self.fns.values():
+            if fn.kind == 'helper':
+                self._build_helper(fn)
+        for fn in self.fns.values():
             if fn.kind == 'parser':
                 self._build_parser(fn)
-            elif fn.kind == 'helper':
-                self._build_helper(fn)
 
     # -------------------------------------------------------------- pexpr
     def pexpr(self, e, fn, env=None):
@@ -235,9 +236,15 @@ class Grammar:
                     return self._unm(fn, e)
                 nl = n == 0
             return {'op': 'prim', 'name': last, 'args': args, 'nullable': nl, 'consuming': cs, 'l': ln}
-        if name in self.fns and self.fns[name].kind == 'helper':
-            # other helper with parser arguments: not one of the modelled ones
-            return self._unm(fn, e)
+        if name in self.fns and self.fns[name].kind == 'helper' and self.fns[name].ir is not None \
+                and len(args) == len(self.fns[name].params):
+            # user-defined helper: inline its body with the arguments substituted
+            h = self.fns[name]
+            sub = {}
+            for pn, a in zip(h.params, args):
+                t = sx.lit_str(a)
+                sub[pn] = ('lit', t) if t is not None else ('p', P(a))
+            return {'op': 'inline', 'name': name, 'p': _subst(h.ir, sub), 'l': ln}
         if name in env:
             return self._unm(fn, e)
         return self._unm(fn, e)
@@ -299,6 +306,8 @@ class Grammar:
         out = []
         parts = []
         nolet = {}  # var -> pexpr for `let ret = P(s);`
+        nolet_arg = {}
+        spans = {fn.span_param}
         tail = None
         for i, st in enumerate(stmts):
             last = i == len(stmts) - 1
@@ -307,15 +316,29 @@ class Grammar:
                 news, pat, f, arg = b
                 pe = self.pexpr(f, rep, env)
                 out.append(('bind', news, pat, pe, arg, st.get('l')))
+                spans.add(news)
                 parts.append(pe)
                 continue
             if st['k'] == 'let' and 'init' in st and st['pat'].get('k') == 'ident' and st['init'].get('k') == 'call' \
-                    and len(st['init']['args']) == 1 and sx.is_path(st['init']['args'][0], fn.span_param) \
-                    and not sx.is_path(st['init']['f']) :
-                # let ret = COMB(..)(s);
+                    and len(st['init']['args']) == 1 and sx.is_path(st['init']['args'][0]) \
+                    and st['init']['args'][0]['p'] in spans \
+                    and (not sx.is_path(st['init']['f']) or
+                         (st['init']['f']['p'] in self.fns and self.fns[st['init']['f']['p']].kind == 'parser')):
+                # let ret = COMB(..)(s);   /   let ret = parser(s);      (result kept as a Result)
                 pe = self.pexpr(st['init']['f'], rep, env)
                 nolet[st['pat']['n']] = pe
+                nolet_arg[st['pat']['n']] = st['init']['args'][0]
                 out.append(('applylet', st['pat']['n'], pe, st.get('l')))
+                continue
+            if st['k'] == 'let' and 'init' in st and 'else' not in st and st['pat'].get('k') == 'tuple' \
+                    and len(st['pat']['e']) == 2 and st['pat']['e'][0].get('k') == 'ident' \
+                    and st['init'].get('k') == 'try' and sx.is_path(st['init']['e']) and st['init']['e']['p'] in nolet:
+                # let (s, PAT) = ret?;      (deferred `?` on a kept Result)
+                v = st['init']['e']['p']
+                pe = nolet.pop(v)
+                out.append(('bind', st['pat']['e'][0]['n'], st['pat']['e'][1], pe, nolet_arg[v], st.get('l')))
+                spans.add(st['pat']['e'][0]['n'])
+                parts.append(pe)
                 continue
             if last and st['k'] == 'expr' and not st.get('semi'):
                 e = st['e']
@@ -387,6 +410,26 @@ class Grammar:
         return [f for f in self.fns.values() if f.kind == 'helper']
 
 
+def _subst(ir, sub):
+    if isinstance(ir, list):
+        return [_subst(x, sub) for x in ir]
+    if not isinstance(ir, dict):
+        return ir
+    if ir.get('op') == 'param' and ir['name'] in sub and sub[ir['name']][0] == 'p':
+        return sub[ir['name']][1]
+    if ir.get('op') == 'lit' and ir.get('text') is None and ir.get('param') in sub and sub[ir['param']][0] == 'lit':
+        out = dict(ir)
+        out['text'] = sub[ir['param']][1]
+        return out
+    out = {}
+    for k, v in ir.items():
+        if k in ('f', 'init', 'args', 'fn', 'cond'):
+            out[k] = v
+        else:
+            out[k] = _subst(v, sub)
+    return out
+
+
 def iter_ir(ir):
     """Pre-order over a pexpr tree (not following refs)."""
     if not isinstance(ir, dict) or 'op' not in ir:
@@ -434,6 +477,8 @@ def show(ir, depth=0):
     if op in ('opt', 'many0', 'many1', 'peek', 'not', 'ws', 'no_ws', 'all_consuming', 'recognize', 'cut', 'complete',
               'consumed', 'into'):
         return '%s(%s)' % (op, show(ir['p']))
+    if op == 'inline':
+        return '%s{%s}' % (ir['name'], show(ir['p']))
     if op == 'many_till':
         return 'many_till(%s, %s)' % (show(ir['p']), show(ir['q']))
     if op in ('map', 'value', 'verify', 'map_res', 'map_opt'):
